@@ -130,18 +130,21 @@ def run(ctx):
 def highdim_inverse_pass(ctx):
     """the iterative inverse of d >= 6 (also behind `/`, reflected `/` and negative powers): sparse operands whose square is not a
     scalar, with and without a stored scalar blade, permuted and zero-padded: the same element gives the same inverse
-    whatever its storage, and x * x.inv() = 1 (floating point, compared to 1e-7)"""
+    whatever its storage, and x * x.inv() = 1 (floating point, well-conditioned operands, compared to 1e-6)"""
     from kingdon import MultiVector
     rng = ctx.rng
     def asd(mv):
         return {int(k): float(v) for k, v in zip(mv.keys(), mv.values()) if abs(float(v)) > 1e-9}
     def near(a, b):
-        return set(a) == set(b) and all(abs(a[k] - b[k]) <= 1e-7 * max(1.0, abs(b[k])) for k in a)
+        return set(a) == set(b) and all(abs(a[k] - b[k]) <= 1e-6 * max(1.0, abs(b[k])) for k in a)
     for sig in ([1] * 6, [1, 1, 1, 1, -1, -1]) + (() if ctx.quick else ([1] * 7,)):
         alg = make_algebra(list(sig))
         pats = [(3, 12), (5, 10), (6, 24), (3, 12, 33), (1, 6), (3, 48)]
         for keys in (pats if not ctx.quick else rng.sample(pats, 4)):
-            vals = {k: float(rng.choice((2, 3, 5, 7, 1.5))) for k in keys}
+            # well-conditioned on purpose: each coefficient exceeds the sum of the smaller ones, so no signed sum of them (the
+            # eigenvalues of commuting blades) comes near zero - the iterative scheme works in floating point
+            pool = [2.0, 3.5, 7.25, 14.5]; rng.shuffle(pool)
+            vals = {k: pool[i] for i, k in enumerate(keys)}
             layouts = {'reference': list(keys), 'reversed': list(reversed(keys)), 'zero-scalar-first': [0] + list(keys), 'zero-scalar-last': list(keys) + [0],
                        'zero-blade-padding': list(keys) + [63, 9]}
             ops = {'inv': lambda x: x.inv(), '1/x': lambda x: 1 / x, 'x**-1': lambda x: x ** -1, 'x**-2': lambda x: x ** -2}
